@@ -470,7 +470,8 @@ def check_cas(base_hash: str | None, old: bytes | None, final: bytes | None, env
 
 def _new_entry_label(path: str, kind: str, cleanup_fault: bool) -> str:
     if kind == "d":
-        return "leftover_parent_dir"
+        # a directory can only be removed again when the temp file in it could be removed first
+        return "excluded_cleanup_fault" if cleanup_fault else "leftover_parent_dir"
     if path.endswith(".tmp"):
         return "excluded_cleanup_fault" if cleanup_fault else "leftover_tmp"
     return "leftover_other"
@@ -488,7 +489,7 @@ def check_error_post(envelope: dict, old: tuple | None, final: tuple | None, lis
         else:
             v.append(f"error_mode_changed: status=error but mode {oct(old[1])} -> {oct(final[1])}")
     if listing_before is None and listing_after is not None:
-        v.append("leftover_parent_dir: status=error but the target's directory was created and left behind")
+        v.append(("excluded_cleanup_fault" if _is_cleanup_fault(injected) else "leftover_parent_dir") + ": status=error but the target's directory was created and left behind")
     for n in sorted(set(listing_after or ()) - set(listing_before or ())):
         v.append(f"{_new_entry_label(n, 'f', _is_cleanup_fault(injected))}: status=error but new entry {n!r} beside target")
     return v
